@@ -427,8 +427,7 @@ theorem go_books (c : LoopCfg) (b : Bucket) (s : St) (i : In) :
       · exact ⟨rfl, rfl, fun _ _ _ => ⟨who, t, ts, snap, rfl, by simpa using hro, rfl⟩⟩
   | sendStored who t =>
     rw [goRaw_sendStored hpc]
-    obtain ⟨h1, h2⟩ := sendReturned_books c
-      { s with committed := s.lastBy.foldl (fun acc p => setAssoc acc p.1 p.2) s.committed } who t
+    obtain ⟨h1, h2⟩ := sendReturned_books c (stored s) who t
     exact ⟨h1.lastBy, h1.committed, fun who t h => absurd h (h2 who t)⟩
   | sleep =>
     rw [goRaw_sleep hpc]
